@@ -38,8 +38,8 @@ row("C07", True, "E-INPUT",
 
 row("C08", True, "E-INPUT",
     EI + " x 18 serializer configurations; oracle: parse(serialize(d)) == d and equals the generated mini-AST",
-    "Every derivation of a generative grammar of GraphQL documents up to a size bound (all definition kinds, all value kinds, directives, descriptions, variable definitions, nested selections) plus every sequence of 1..3 menu definitions is printed, parsed by ast::Document::parse and re-serialized under 18 serializer configurations (indentation on/off, prefixes, initial levels, Display, to_string of parts); the re-parsed AST must equal the original and the harness's own mini-AST projection.",
-    "Strings limited to two representatives (escaping is C09); lists have 1..2 elements; documents 1..3 definitions.")
+    "Every derivation of a generative grammar of GraphQL documents up to a size bound (all definition kinds, all value kinds, directives, descriptions, variable definitions, nested selections) plus every sequence of 1..3 menu definitions, plus two templates carrying every string of a menu (all strings <= 3|4 symbols over a 10-symbol alphabet, all paragraphs of 2..3|4 menu lines) at every kind of string site, is printed, parsed by ast::Document::parse and re-serialized under 18 serializer configurations (indentation on/off, prefixes, initial levels, Display, to_string of parts); the re-parsed AST must equal the original and the harness's own mini-AST projection.",
+    "Inside grammar-derived documents strings are limited to two representatives (the string space proper is C09); lists have 1..2 elements; documents 1..3 definitions.")
 
 row("C09", True, "E-INPUT",
     EI + " x 10 string sites x 5 configurations; oracle: value identity through serialize→parse",
@@ -72,8 +72,8 @@ row("C14", True, "E-INPUT",
     "Trusted: refmodel::typesys (graphql-js is not installed). Three documented apollo choices are oracle parameters.")
 
 row("C15", True, "E-INPUT",
-    EI + " (C14's schema space); oracle: direct invariants on every accepted schema",
-    "Every schema of C14's space that Schema::parse_and_validate accepts is checked against each invariant of the statement on the public fields of Valid<Schema>: every referenced type exists and has the right input/output kind, interface fields are present with covariant types and compatible arguments, union members are objects, root types are distinct objects, no type/field/argument/value name is duplicated or reserved, built-in scalars present iff referenced.",
+    EI + " (C14's schema space) + E-HIST (every edit/validate sequence up to a depth bound on real Schema values); oracle: direct invariants on every accepted schema",
+    "Every schema of C14's space that Schema::parse_and_validate accepts is checked against each invariant of the statement on the public fields of Valid<Schema>: every referenced type exists and has the right input/output kind, interface fields are present with covariant types and compatible arguments, union members are objects, root types are distinct objects, no type/field/argument/value name is duplicated or reserved, built-in scalars present iff referenced. History part: from four valid bases every sequence of <= 3|4 steps over 14 edits of the unwrapped schema (add/remove fields referencing each built-in scalar, an undefined type) and `validate` + into_inner; the schema accepted by the final validation is judged against the same invariants (schemas reached by mutating until they validate).",
     "Rides on C14's alphabet; IsValidImplementationFieldType is refmodel::compat.")
 
 row("C16", True, "E-HIST",
@@ -93,7 +93,7 @@ row("C18", True, "E-INPUT",
 
 row("C19", True, "E-INPUT",
     EI + " (C17's pair space + field sets x 3 configurations); oracle: round-trip identity",
-    "Every valid pair of C17's space: serialize → parse → equal ExecutableDocument, also via to_ast → Document → to_executable; same for every FieldSet; under three serializer configurations.",
+    "Every valid pair of C17's space: serialize → parse → equal ExecutableDocument, also via to_ast → Document → to_executable; same for every FieldSet; plus one valid document carrying every string of a menu (all strings <= 3|4 symbols over a 10-symbol alphabet, paragraphs of 2..3|4 lines) at each of its string sites; under three serializer configurations.",
     "Equality is apollo's PartialEq (sources ignored).")
 
 row("C20", True, "E-INPUT",
